@@ -96,7 +96,8 @@ def motion_of(ch, rots):
 
 SPELLINGS = ['surf-tr12', 'surf-tr13', 'surf-startr', 'trcl-num', 'trcl-inline', 'trcl-star',
              'implicit-both', 'implicit-neg', 'implicit-pos', 'trcl-num-startr', 'both-tr-trcl', 'both-implicit',
-             'implicit-collide', 'trcl-inline13', 'trcl-star13', 'surf-startr13']
+             'implicit-collide', 'trcl-inline13', 'trcl-star13', 'surf-startr13', 'compl-of-imp0-trcl',
+             'compl-of-trcl-later']
 M2 = refsem.Motion((-0.5, 1.0, 0.25), refsem.rotation([0, 1, 0], 90.0).T)     # second motion for compositions
 
 
@@ -120,6 +121,21 @@ def build_state(kind, rname, m, spelling):
         objm = ref.moved(m)
         st.expect = {1: ('fn', lambda P: pm.pos(P) & objm.neg(P)), 6: 'neg',
                      7: ('fn', lambda P: pm.pos(P) & sph.neg(P)), 8: ('fn', lambda P: pm.pos(P) & objm.pos(P))}
+        return st
+    if spelling in ('compl-of-imp0-trcl', 'compl-of-trcl-later'):
+        # the moved cell is not converted itself (importance 0) or is defined after its user; another cell
+        # refers to it with #n and must see the moved solid
+        sph = refsem.mcnp_surface('so', [60.0])
+        objm = ref.moved(m)
+        st.ref = refsem.RefSurf(list(objm.comps) + list(sph.comps), objm._neg, objm._pos)
+        st.surfs = ['1 ' + card, '999 so 60']
+        st.data = ['tr7 ' + tr12]
+        if spelling == 'compl-of-imp0-trcl':
+            st.cells = ['1 0 -1 trcl=7 imp:n=0', '2 0 #1 -999 imp:n=1', '3 0 999 imp:n=0']
+            st.expect = {2: ('fn', lambda P: objm.pos(P) & sph.neg(P))}
+        else:
+            st.cells = ['2 0 #1 -999 imp:n=1', '3 0 999 imp:n=0', '1 0 -1 trcl=(%s) imp:n=1' % tr12]
+            st.expect = {2: ('fn', lambda P: objm.pos(P) & sph.neg(P)), 1: 'neg'}
         return st
     if spelling.startswith('both-'):
         # the surface card carries TR7 (motion m) and the cell a TRCL (motion M2): the cell sees the surface
